@@ -32,7 +32,7 @@ VARIANTS = {
 }
 
 WRAPS_AB = ["fopen", "fopen64", "time", "clock", "localtime", "rand", "srand", "exit",
-            "malloc", "calloc", "realloc", "free", "realpath", "mkdir", "chdir", "getcwd"]
+            "malloc", "calloc", "realloc", "free", "realpath", "mkdir", "chdir", "getcwd", "ran_num_next"]
 
 FALLBACK_SRCS = """aho-corasick beamer char critic_markup d_string epub file html itmz itmz-lexer
 itmz-parser itmz-reader latex lexer memoir miniz mmd object_pool opendocument opendocument-content
@@ -161,6 +161,10 @@ def build(variant, quiet=True):
     inc = ["-I", gen_dir, "-I", srcdir]
     for s in lib_sources():
         flags = v["cflags"] + inc + ["-std=gnu99"]
+        if os.path.basename(s) == "miniz.c" and variant in ("A", "B"):
+            # third-party miniz does deliberate unaligned loads and passes NULL with size 0 to memcpy;
+            # benign here, belongs to C01 (not claimed), and would end every archive-producing run
+            flags = flags + ["-fno-sanitize=alignment,nonnull-attribute"]
         key = hashlib.sha256(("lib|%s|%s|%s|%s" % (os.path.basename(s), file_hash(s), hh, " ".join(flags))).encode()).hexdigest()[:32]
         jobs.append(("clang", s, flags, key))
     # the CLI, driven in-process
